@@ -212,3 +212,54 @@ def output_contract(prop, tier, seed):
                   'grids of 3-6 steps', 40 if tier == 'quick' else 240)
     b['failures'] = [f for f in b['failures'] if f['name'].startswith(prop) or f.get('error')]
     return dict(bounded=b)
+
+
+@provider('C17')
+def stochastic(prop, tier, seed):
+    rng = random.Random(seed + 5)
+    cases = []
+    for _ in range(_n(tier, 8, 40)):
+        T = rng.randint(4, 8)
+        cases.append(dict(T=T, k=rng.randint(1, T - 1), S=rng.randint(1, 3), transport=rng.random() < .5, identical=rng.random() < .25, seed=rng.randint(0, 99999)))
+    b1 = run_cases(sc.check_slp, cases, 'make_slp on storage portfolios (optionally with a multi-row transport) with 1-3 sampled futures sharing the present prices: block structure, cost scaling, EEV <= V_slp <= mean of scenario optima, = deterministic optimum for identical scenarios',
+                   'hourly grids of 4-8 steps, present/future boundary anywhere', 50 if tier == 'quick' else 300)
+    b2 = run_cases(sc.check_robust, cases[:_n(tier, 6, 30)], 'robust target over the cost vectors of 2-4 scenarios: worst case of the robust solution vs single-scenario solutions and vs the smallest scenario optimum',
+                   'same portfolios', 30 if tier == 'quick' else 200)
+    return dict(bounded=_merge(b1, b2))
+
+
+@provider('C16', 'C18', 'C10', 'C01')
+def structured(prop, tier, seed):
+    rng = random.Random(seed + 23)
+    cases = []
+    for _ in range(_n(tier, 8, 40)):
+        T = rng.randint(4, 7)
+        cases.append(dict(T=T, seed=rng.randint(0, 9999), struct_first=rng.random() < .5, window=rng.choice([(None, None), (None, None), (2, T), (0, T - 1)])))
+    b = run_cases(sc.check_structured, cases, 'StructuredAsset wrapping [source, storage, pipe] + outer assets vs the flat portfolio: value, balance at the external nodes in the reported dispatch, supergradient property of the reported nodal prices, wrapped objects unchanged by the set-up (windows on the structured asset)',
+                  'hourly grids of 4-7 steps', 40 if tier == 'quick' else 240)
+    b['failures'] = [f for f in b['failures'] if f['name'].startswith(prop) or f.get('error')]
+    return dict(bounded=b)
+
+
+D30_CASE = dict(T=8, seed=1853, window=(1, 7), eff=0.9, start_level=1.0, end_level=0.0, inflow=0.0, cost_in=0.0, no_simult=False, max_dur=None,
+                block='2h', two_nodes=False, order=False, d30=True)
+
+
+@provider('C05')
+def storage_physics(prop, tier, seed):
+    rng = random.Random(seed + 31)
+    cases = [dict(D30_CASE)]
+    for _ in range(_n(tier, 60, 400)):
+        T = rng.randint(4, 8)
+        a = rng.choice([0, 0, 1])
+        b = rng.choice([T, T, T - 1])
+        case = dict(T=T, seed=rng.randint(0, 9999), window=(a, b), eff=rng.choice([1., .9]), start_level=rng.choice([0., 1.]), inflow=rng.choice([0., 0., .2]),
+                    cost_in=rng.choice([0., .1]), no_simult=rng.random() < .25, max_dur=rng.choice([None, None, None, 2.]), block=rng.choice([None, None, '2h', '3h']),
+                    two_nodes=rng.random() < .25, order=rng.random() < .5)
+        case['end_level'] = case['start_level'] if rng.random() < .6 else 0.
+        if case['block'] and case['end_level'] != case['start_level'] and (b - a) % int(case['block'][0]) == 0:
+            # the family of known finding D30 (window end on a block boundary, start level != end level) is represented by D30_CASE only
+            case['end_level'] = case['start_level']
+        cases.append(case)
+    return dict(bounded=run_cases(sc.check_storage_physics, cases, 'optimised storage portfolios (one/two nodes, efficiency, start/end level, inflow, charging cost, no-simultaneous option, maximum holding duration, time blocks of 2-3 h, windows, asset order): physical level within [0, size] and at the end level at the end of every block, rates within rate x step length, reported fill level = physical level, holding duration respected',
+                                  'hourly grids of 4-8 steps', 60 if tier == 'quick' else 400))
